@@ -48,6 +48,8 @@ fn main() {
     engine::install_panic_hook();
     let run_args = RunArgs { tier, seed, replay, workers, cases_override };
     let code = match id.as_str() {
+        "C03" => run_property(props::c03_certs::C03, run_args),
+        "C04" => run_property(props::c04_admission::C04, run_args),
         "C15" => run_property(props::c15_merkle::C15, run_args),
         _ => {
             eprintln!("unknown property id {id}");
